@@ -62,6 +62,8 @@ def alternatives(t):
             return out
         if t[0] == "gphi":
             return alternatives(t[2]) + alternatives(t[3])
+        if t[0] == "when":
+            return alternatives(t[2])
     return [t]
 
 
@@ -125,6 +127,10 @@ class Interp:
         self.unsupported = []     # (where, what) for constructs evaluated to top
         self.consts = consts or {}   # forced values for names (configuration)
         self.force = {}              # local name -> term forced on every binding
+        self.opaque = set()          # callee fq -> fresh ("sample", fq, n) per call
+        self.impure_ext = {"time.time", "time.monotonic", "time.sleep"}
+        self.inst = 0
+        self.last_env = None
         self.namedtuples = self._collect_namedtuples()
         self.trace_calls = []
 
@@ -222,6 +228,9 @@ class Interp:
         sm = self.summary(fi, args, kwargs)
         if sm is not None:
             return sm
+        if fi.fq in self.opaque:
+            self.inst += 1
+            return ("sample", fi.fq, self.inst)
         if self.depth >= self.max_depth:
             return top(f"inline depth at {fi.fq}")
         a = fi.node.args
@@ -261,6 +270,8 @@ class Interp:
             rets = []
             is_gen = any(isinstance(n, (ast.Yield, ast.YieldFrom)) for n in _walk_own(fi.node))
             self.block(fi.node.body, env, fi, rets)
+            if self.depth == 1:
+                self.last_env = env
             if is_gen:
                 ys = [r for k, r in rets if k == "yield"]
                 return ("listof", phi(*ys)) if ys else ("listof", BOT)
@@ -543,11 +554,12 @@ class Interp:
         for w in assigned:
             if w in env:
                 v = env[w]
-                if isinstance(v, tuple) and v and v[0] in ("listof", "dictof", "dict"):
+                if isinstance(v, tuple) and v and v[0] in ("listof", "dictof", "dict", "list"):
                     continue
                 pre[w] = v
                 body_env[w] = ("lv", w, lid)
         body_env["@loopconds"] = len(body_env.get("@conds", []))
+        body_env["@absloop"] = body_env.get("@absloop", 0) + 1
         if el is not None and isinstance(st, ast.For):
             self.assign(st.target, el, body_env, fi)
         if isinstance(st, ast.While):
@@ -574,7 +586,9 @@ class Interp:
                 env[k] = self._summarise(pre[k], out, lv, k)
             else:
                 old = env.get(k, BOT)
-                if isinstance(out, tuple) and out and out[0] in ("listof", "dictof"):
+                if isinstance(out, tuple) and out and out[0] in ("listof", "dictof") \
+                        or (isinstance(old, tuple) and old and old[0] == "list"
+                            and isinstance(out, tuple) and out and out[0] in ("list", "listof")):
                     env[k] = _join_container(old, out)
                 elif k in env and old != out:
                     env[k] = phi(old, out) if old != BOT else out
@@ -582,6 +596,8 @@ class Interp:
                     env[k] = out
         env["@live"] = True
         env.pop("@loopjump", None)
+        if not env.get("@absloop"):
+            env.pop("@absloop", None)
 
     def _summarise(self, pre, out, lv, name):
         """Loop-carried scalar: recognise accumulation."""
@@ -761,9 +777,20 @@ class Interp:
         return self.global_name(e.id, fi)
 
     def global_name(self, name, fi):
+        from .pyrepo import PLATFORM_MODULES
         mod = self.repo.mod(fi.module)
         if name in ("True", "False", "None"):
             return const({"True": True, "False": False, "None": None}[name])
+        if name == "_psplatform" and fi.module == "psutil":
+            return ("module", PLATFORM_MODULES[self.plat])
+        imp0 = mod.imports.get(name)
+        if imp0 and imp0[0] == "module" and imp0[1].startswith("psutil.") \
+                and imp0[1].split(".", 1)[1] in self.repo.modules:
+            return ("module", imp0[1].split(".", 1)[1])
+        from .pyrepo import platform_flags
+        fl = platform_flags(self.plat)
+        if name in fl and (name in mod.imports or fi.module == "_common"):
+            return const(fl[name])
         # enclosing closures are handled by env; module level:
         if name in mod.assigns:
             vals = mod.assigns[name]
@@ -814,18 +841,45 @@ class Interp:
             return ("gphi", base[1], a, b) if a != b else a
         if k == "phi":
             return phi(*[self._attr_of(x, e.attr) for x in base[1:]])
-        if k == "ext":
-            return ("ext", f"{base[1]}.{e.attr}")
-        if k == "ref":
-            # module-qualified reference: _common.sdiskpart / _psplatform.scputimes
-            return ("ref", f"{base[1]}.{e.attr}")
         if k in ("glob", "ref") and e.attr == "_fields":
             mn, n = base[1].replace(":", ".").split(".", 1)
             if (mn, n) in self.namedtuples:
                 return ("tuple",) + tuple(const(f) for f in self.namedtuples[(mn, n)])
+        if k == "ext":
+            return ("ext", f"{base[1]}.{e.attr}")
+        if k == "module":
+            mn = base[1]
+            m2 = self.repo.mod(mn)
+            if (mn, e.attr) in self.namedtuples or e.attr in m2.funcs or e.attr in m2.classes:
+                return ("ref", f"{mn}:{e.attr}")
+            if e.attr in m2.assigns:
+                vals = m2.assigns[e.attr]
+                if len(vals) == 1 and isinstance(vals[0], ast.Constant):
+                    return const(vals[0].value)
+                return ("glob", f"{mn}.{e.attr}")
+            imp = m2.imports.get(e.attr)
+            if imp and imp[0] == "name" and imp[1].startswith("psutil."):
+                short = imp[1].split(".", 1)[1]
+                if short in self.repo.modules:
+                    return self.e_Attribute_of_module(short, imp[2])
+                return ("native", f"{e.attr}")
+            if imp and imp[0] == "module":
+                return ("ext", imp[1])
+            return ("ext", f"psutil.{mn}.{e.attr}")
+        if k == "ref":
+            # module-qualified reference: _common.sdiskpart / _psplatform.scputimes
+            return ("ref", f"{base[1]}.{e.attr}")
         if k is None or k == "free":
             pass
         return ("attr", base, e.attr)
+
+    def e_Attribute_of_module(self, mn, attr):
+        m2 = self.repo.mod(mn)
+        if (mn, attr) in self.namedtuples or attr in m2.funcs or attr in m2.classes:
+            return ("ref", f"{mn}:{attr}")
+        if attr in m2.assigns:
+            return ("glob", f"{mn}.{attr}")
+        return ("ext", f"psutil.{mn}.{attr}")
 
     def _attr_of(self, t, attr):
         if isinstance(t, tuple) and t and t[0] == "nt" and attr in t[2]:
@@ -863,7 +917,7 @@ class Interp:
 
     def e_List(self, e, env, fi):
         if not e.elts:
-            return ("listof", BOT)
+            return ("list",)
         return self._seq("list", e, env, fi)
 
     def _seq(self, kind, e, env, fi):
@@ -940,6 +994,19 @@ class Interp:
     def e_BoolOp(self, e, env, fi):
         vals = [self.expr(v, env, fi) for v in e.values]
         k = "and" if isinstance(e.op, ast.And) else "or"
+        if k == "and":
+            kept = []
+            for v in vals:
+                t = self._truth(v)
+                if t is False:
+                    return v if not kept else const(False)
+                if t is None:
+                    kept.append(v)
+            if not kept:
+                return vals[-1]
+            if len(kept) == 1:
+                return kept[0]
+            return ("and",) + tuple(kept)
         # value semantics of `x or y`
         if k == "or" and len(vals) == 2:
             t = self._truth(vals[0])
@@ -1155,6 +1222,9 @@ class Interp:
             mn, n = f[1].split(".", 1)
             if (mn, n) in self.namedtuples:
                 return self.make_nt((mn, n), args, kwargs)
+            if "timer" in n:
+                self.inst += 1
+                return ("sample", f[1], self.inst)
             # alias  disk_usage = _psposix.disk_usage
             m = self.repo.mod(mn)
             for v in m.assigns.get(n, []):
@@ -1256,7 +1326,12 @@ class Interp:
             cur = env[name]
             if f.attr == "append" and len(c.args) == 1:
                 v = self.expr(c.args[0], env, fi)
-                env[name] = _join_container(cur, ("listof", v))
+                if env.get("@absloop"):
+                    v = self._guarded(env, v)
+                if cur and cur[0] == "list" and not env.get("@absloop"):
+                    env[name] = cur + (v,)
+                else:
+                    env[name] = _join_container(cur, ("listof", v))
                 return
             if f.attr in ("add",) and len(c.args) == 1:
                 v = self.expr(c.args[0], env, fi)
@@ -1306,6 +1381,13 @@ class Interp:
                 key, fields = self.nt_lookup(fi, d)
                 if key:
                     return self.make_nt(key, args, kwargs)
+            if isinstance(recv_node, ast.Name) and recv_node.id not in env:
+                gv = self.global_name(recv_node.id, fi)
+                if gv[0] == "module":
+                    fv = self.expr(f, env, fi)
+                    if fv[0] == "ref" and ":" in fv[1]:
+                        self.trace_calls.append(fv[1])
+                    return self.apply(fv, args, kwargs)
             # resolved repo/native/ext callee first
             tg = self.repo.resolve_call(c, fi, self.plat)
             kinds = {t[0] for t in tg}
@@ -1348,7 +1430,18 @@ class Interp:
                     return ("native", t[1], *args)
                 if t[0] == "ext":
                     return self.builtin(t[1].replace("builtins.", ""), args, kwargs)
+                if t[0] == "unknown":
+                    # X = getattr(time, 'monotonic', time.time)
+                    vals = self.repo.mod(fi.module).assigns.get(f.id, [])
+                    if len(vals) == 1 and isinstance(vals[0], ast.Call) \
+                            and dotted(vals[0].func) == "getattr" and len(vals[0].args) >= 2 \
+                            and isinstance(vals[0].args[1], ast.Constant):
+                        base = dotted(vals[0].args[0])
+                        return self.builtin(f"{base}.{vals[0].args[1].value}", args, kwargs)
                 if t[0] == "param":
+                    if "timer" in t[1] or "sleep" in t[1]:
+                        self.inst += 1
+                        return ("sample", f"param:{t[1]}", self.inst)
                     return ("call", f"param:{t[1]}", *args)
             return ("call", f.id, *args)
         fv = self.expr(f, env, fi)
@@ -1426,6 +1519,9 @@ class Interp:
                                      for i, p in enumerate(parts)))
         if name == "isinstance":
             return ("call", "isinstance", *a)
+        if name in self.impure_ext:
+            self.inst += 1
+            return ("sample", name, self.inst)
         return ("call", name, *a)
 
     def method(self, recv, attr, args, kwargs, env, fi, recv_node):
@@ -1514,12 +1610,17 @@ class Interp:
 
 def _is_container(v):
     return isinstance(v, tuple) and v and (v[0] in ("listof", "dictof")
-                                           or (v[0] == "dict" and not v[1]))
+                                           or (v[0] == "dict" and not v[1])
+                                           or v == ("list",))
 
 
 def _join_container(old, new):
     if isinstance(new, tuple) and new and new[0] == "dict" and not new[1]:
         return old if old != BOT else new
+    if isinstance(old, tuple) and old and old[0] == "list":
+        old = ("listof", phi(*old[1:]) if len(old) > 1 else BOT)
+    if isinstance(new, tuple) and new and new[0] == "list":
+        new = ("listof", phi(*new[1:]) if len(new) > 1 else BOT)
     if not isinstance(old, tuple) or not old or old == BOT:
         return new
     if old[0] == "listof" and new[0] == "listof":
